@@ -314,6 +314,10 @@ def dyadic_sample(rng, n, shape):
 
 def float_sample(rng, n, shape, lo=1.01, hi=3.3):
     base = sorted({round(rng.uniform(lo, hi), rng.choice([3, 5, 17])) for _ in range(n)})
+    if "siblings" in shape:
+        # distinct redshifts a few parts in a million apart (sibling supernovae), also at low redshift where one such step changes
+        # the distance modulus by a millimagnitude: every datum must get the integral up to ITS OWN redshift
+        base = sorted(set(base) | {1.0102, 1.010207} | {q + rng.choice([3e-6, 7e-6]) for q in rng.sample(base, max(1, len(base) // 3))})
     return shape_sample(rng, base, shape)
 
 
@@ -462,7 +466,7 @@ def correspondence(ctx):
     # B. the constructor's delta_z, arbitrary floats: grid compared to 1e-12
     ns = [1, 2, 3, 7, 19, 33] if quick else [1, 2, 3, 7, 19, 40, 99, 200]
     for n in ns:
-        for shape in SHAPES:
+        for shape in SHAPES + (["siblings-unsorted"] if n >= 7 else []):
             if n == 1 and shape != "sorted":
                 continue
             zs = float_sample(rng, n, shape)
@@ -734,7 +738,7 @@ def search(ctx):
     fams = ["lcdm", "const", "sq", "cubic", "lin", "quart", "cube", "mono1"]
     ns = [1, 2, 5, 12, 40] if ctx.quick else [1, 2, 3, 5, 12, 40, 100, 200]
     for n in ns:
-        for shape in SHAPES:
+        for shape in SHAPES + (["siblings-unsorted", "siblings-dups-unsorted"] if n >= 5 else []):
             if n == 1 and shape != "sorted":
                 continue
             zs = float_sample(rng, n, shape, lo=1.0005, hi=rng.choice([1.2, 2.0, 3.3]))
